@@ -76,6 +76,8 @@ def gen_program(rng, cfg):
         spec["falsy_errors"] = True
     if (d // 6) % 3 == 0:
         spec["falsy_holder"] = True
+    if (d // 72) % 3 == 0:
+        spec["sv_subclass"] = True
     if (d // 18) % 4 == 0:
         # results that cannot be compared (== raises, like an array's): "const" results become such
         def walk(steps):
